@@ -4,13 +4,19 @@ import vf
 POOL = ["01", "0102", "aa", "ff00", "-"]
 
 
-def gen_graph(rng, big=False):
+def gen_graph(rng, big=False, tail_shards=False):
     k = rng.randint(3, 9) if not big else 330
     items = ["I1.1"]
     nodes = {1: [1]}
     for n in range(2, k + 1):
         items.append(f"N1.{n}.{rng.randint(5, 7)}")
         nodes[1].append(n)
+    if tail_shards:
+        # scopes in the last shards (shard = low byte of the node id): static round-robin with a worker count that does
+        # not divide 256 must still execute them
+        for n in rng.sample([250, 251, 252, 253, 254, 255, 511, 767], rng.randint(2, 4)):
+            items.append(f"N1.{n}.6")
+            nodes[1].append(n)
     edges = {1: []}
     for e in range(rng.randint(0, 5) if not big else 20):
         eid = 20 + e
@@ -100,9 +106,20 @@ def gen_enq(rng, nodes, nrules=4, big=False, safe=False):
     return reqs
 
 
-def gen_case(rng, big=False, perms=4, local=0.5, extra="", safe=False):
-    g, nodes, edges = gen_graph(rng, big)
+def gen_case(rng, big=False, perms=4, local=0.5, extra="", safe=False, tail_shards=False, divergent=False):
+    g, nodes, edges = gen_graph(rng, big, tail_shards=tail_shards)
     r = gen_programs(rng, nodes, edges, big=big, local=local, safe=safe)
+    if divergent:
+        # one rule emits two DIFFERENT ops under one sort key (clear-then-set): the merge must reject the tick whatever the
+        # schedule (a fast path that skips the merge for a single non-empty delta would commit it on one worker)
+        rules = r.split(";")
+        rules[rng.randrange(len(rules))] = f"{rng.randrange(4)}:sa.s.-,sa.s.{rng.choice(POOL[:4])}"
+        seen, out = set(), []
+        for x in rules:
+            i = x.split(":")[0]
+            if i not in seen:
+                seen.add(i); out.append(x)
+        r = ";".join(out)
     enq = gen_enq(rng, nodes, big=big, safe=safe)
     e = ";".join(f"{a}.{b}.{c}" for a, b, c in enq) or "-"
     return f"g={g} r={r} enq={e} perms={perms} seed={rng.getrandbits(30)}" + ((" " + extra) if extra else "")
